@@ -13,6 +13,7 @@ Clauses
   sizemults    the documented argument types of sizemults (tuple; list left untouched, call repeatable)
 """
 import math
+import re
 
 import numpy as np
 from hypothesis import strategies as st
@@ -32,7 +33,13 @@ RULE = ("hand-built unit cells (sc, B2, L1_2, fcc/diamond conventional 'f', bcc 
         "built with a shift / shiftindex / shiftscale choice and called with a different explicit one (shiftindex=0, other "
         "indices, Cartesian or box-relative vectors as list / array / tuple, the vector equal to an entry of shifts, the "
         "all-zero vector), and / or an earlier monopole() or periodicarray() call with its own shift choice, size, centre and "
-        "boundary; the judged call is always the last one.  Non-trivial: edge or mixed character AND a non-default m/n "
+        "boundary; the judged call is always the last one.  LENGTH UNIT: the whole geometric input of a case (lattice parameter, "
+        "hence cell, positions, Burgers vector and shifts; boundary widths, duplicate cutoff - always given explicitly then, its "
+        "default being 0.5 Angstrom converted to working units -, a/b/cmin, Cartesian centres) is multiplied by 10^k, k = 0 in "
+        "half of the cases, else -12 .. 6 with 1e-10 (metres) favoured; every length tolerance of the oracles is a multiple of "
+        "10^k.  `tol` stays at its default (documented as the dimensionless tolerance of the elastic solver).  The elastic "
+        "constants carry an independent magnitude 1e-2 .. 1e3 (the range in which the Stroh solver accepts every medium "
+        "generated here; a refusal outside C11 = 1 is counted, not judged).  Non-trivial: edge or mixed character AND a non-default m/n "
         "assignment.")
 ASSUMPTIONS = [
     "the elastic solution object (VolterraDislocation.displacement, .burgers, .m, .n, .transform) is judged by C12; here it is "
@@ -40,10 +47,14 @@ ASSUMPTIONS = [
     "System.supersize / wrap (C04, C05) are used to rebuild the full reference system of a periodic array",
     "scipy.spatial.cKDTree and numpy linear algebra are correct",
     "unit cells are built by hand (no prototype database): sc, B2, L1_2, fcc, diamond, bcc, hcp",
+    "atomman's working units are not changed (uc.reset_units is global state): a crystal 'in metres' is a crystal whose numbers "
+    "are 1e-10 times the Angstrom ones, and arguments with a unit-aware default (cutoff) are given explicitly",
 ]
 LEVEL_TEXT = ("Random search over hand-built fcc/bcc/hcp/sc/ordered cells (primitive and centred settings), all slip planes and "
               "line directions with |index| <= 2, screw/edge/mixed and partial Burgers vectors, the six m/n axis assignments, "
-              "size multipliers, shifts, centres, boundary shapes/widths, linear/solution arrays; systems up to 3000 atoms.")
+              "size multipliers, shifts, centres, boundary shapes/widths, linear/solution arrays; systems up to 3000 atoms; every "
+              "case in Angstrom-like numbers or multiplied by an overall length scale 1e-12 .. 1e6 (on the unchanged tree the open "
+              "finding on `tol` excludes cells <= 1e-2 units), elastic constants of magnitude 1e-2 .. 1e3.")
 TECHNIQUE = ("lattice map-back of the reference system through `transform`; re-evaluated displacement field at reference "
              "positions; own half-space/cylinder predicates; duplicate/overlap search under the new periodicity; analytic "
              "tail bound for the disregistry")
@@ -54,6 +65,8 @@ KEY_MUT = 'C13:sizemults:list-mutated'
 KEY_ANTI = 'C13:rcell:anticyclic-mn:turned-180-about-n'
 KEY_FACE = 'C13:array:screw:atom-on-upper-face-duplicated'
 KEY_SKEW = 'C13:rcell:nondefault-mn:lammps-orientation-not-solution-frame'
+KEY_TOL = 'C13:init:solution-tol-used-as-absolute-length:cell-1e-2-or-1e6-working-units'
+KEY_DISREG = 'C13:disregistry:absolute-isclose-tolerance:plane-spacing-below-1e-8-units'
 
 CAP = 3000          # atoms per configuration
 TUPLE_MSG = "'tuple' object does not support item assignment"
@@ -102,7 +115,11 @@ def setup(cr):
     c.cr = cr
     name = cr['struct']
     S = g.STRUCTS[name]
-    c.V = g.struct_vects(name, cr.get('coa', 1.633)) * cr['a']
+    # overall length scale of the case (every length below carries it; c.s is also the unit of the oracle's length tolerances)
+    c.lk = int(cr.get('lk', 0))
+    c.s = 10.0 ** c.lk
+    c.a = cr['a'] * c.s
+    c.V = g.struct_vects(name, cr.get('coa', 1.633)) * c.a
     c.rel = np.array(S[1], dtype=float)
     c.types = np.array(S[2], dtype=int)
     c.setting = S[3]
@@ -111,10 +128,12 @@ def setup(cr):
     c.ucell = am.System(atoms=am.Atoms(pos=c.rel.copy(), atype=c.types.copy()), box=am.Box(vects=c.V.copy()),
                         scale=True, symbols=list(S[5]))
     C = cr['C']
+    c.ce = int(cr.get('ce', 0))
+    cs = 10.0 ** c.ce                       # magnitude of the elastic constants (energy / length^3): the field does not depend on it
     if C['kind'] == 'hex':
-        c.C = am.ElasticConstants(C11=C['C11'], C12=C['C12'], C13=C['C13'], C33=C['C33'], C44=C['C44'])
+        c.C = am.ElasticConstants(C11=C['C11'] * cs, C12=C['C12'] * cs, C13=C['C13'] * cs, C33=C['C33'] * cs, C44=C['C44'] * cs)
     else:
-        c.C = am.ElasticConstants(C11=C['C11'], C12=C['C12'], C44=C['C44'])
+        c.C = am.ElasticConstants(C11=C['C11'] * cs, C12=C['C12'] * cs, C44=C['C44'] * cs)
     b3, xi3, hkl3 = np.array(cr['b'], dtype=float), np.array(cr['xi'], dtype=float), np.array(cr['hkl'], dtype=float)
     if cr.get('hex4'):
         c.args = (g.vec3to4(cr['b']), _int4(cr['xi']), g.plane3to4(cr['hkl']))
@@ -153,6 +172,14 @@ def labels_of(c):
         labs.add('partial')
     if c.character != 'screw' and not c.default_mn:
         labs.add('nt')
+    if c.lk:
+        labs.add('scaled')
+        labs.add('scaled_small' if c.lk < 0 else 'scaled_large')
+        labs.add('scale_1e%d' % c.lk if c.lk in (-10, -12, 6) else 'scale_other')
+        if c.character != 'screw' and not c.default_mn:
+            labs.add('nt_scaled')
+    if c.ce:
+        labs.add('C_magnitude_scaled')
     return labs
 
 
@@ -161,9 +188,9 @@ def planes_of(c, pos, shift):
     P = c.P
     y = (pos @ c.n_ax + float(np.dot(shift, c.n_ax))) % P
     y = np.sort(y)
-    keep = np.concatenate(([True], np.diff(y) > 1e-6))
+    keep = np.concatenate(([True], np.diff(y) > 1e-6 * c.s))
     y = y[keep]
-    if len(y) > 1 and y[-1] - y[0] > P - 1e-6:
+    if len(y) > 1 and y[-1] - y[0] > P - 1e-6 * c.s:
         y = y[:-1]
     return y
 
@@ -174,24 +201,52 @@ def gap_at_zero(c, pos, shift):
     P = c.P
     y = np.where(y > P / 2, y - P, y)
     y = np.sort(np.concatenate((y, y + P, y - P)))
-    above = y[y > 1e-7]
-    below = y[y < -1e-7]
+    above = y[y > 1e-7 * c.s]
+    below = y[y < -1e-7 * c.s]
     return float(above.min()), float(below.max())
 
 
 def build(c):
     """atomman's Dislocation for the case (with the shift option of the case), plus the quantities derived from it that the
-    later oracles need.  Raises the keyed orientation finding early when the rotated cell is not in the solution's frame."""
+    later oracles need.  Raises the keyed orientation finding early when the rotated cell is not in the solution's frame.
+    None: the elastic solver refused a medium with scaled constants (label solver_refused)."""
     am = c.am
     cr = c.cr
     b, xi, hkl = c.args
-    d0 = am.defect.Dislocation(c.ucell, c.C, b, xi, hkl, **c.kw)
+    # `tol` is left at its default whatever the length unit: it is documented as "a cutoff tolerance used with obtaining the
+    # dislocation solution" and the solvers compare it with dimensionless quantities (a tol of 1e-8 x 1e-10 makes Stroh refuse
+    # every medium).  Dislocation.__init__ also uses it as an absolute length (atol of conventional_to_primitive, rounding and
+    # atol of the plane coordinates in __identify_shifts): the open finding KEY_TOL, met when 1e-8 working units is not
+    # negligible against the plane spacing (cell <= 1e-2 units) or is below the rounding of the coordinates (cell >= 1e6 units).
+    # Same constructor, same class of input: conventional_to_primitive is called with its default smallshift = 0.001 working
+    # units (1e9 lattice parameters at 1e-12: 'N atoms found, M expected', or positions good to 7 digits only).
+    c.tol_class = c.lk <= -2 or c.lk >= 6
+    try:
+        d0 = am.defect.Dislocation(c.ucell, c.C, b, xi, hkl, **c.kw)
+    except (ValueError, IndexError, AssertionError) as e:
+        if c.ce and 'C must be isotropic elastic constants' in str(e):
+            # the Stroh solver refused the medium (its self-checks are not independent of the magnitude of C: 2 media of 1500
+            # at 1e3, none seen at 1) and the dispatcher fell through to the isotropic solver's refusal.  The solvers are C12's
+            # subject ("that the solver accepts"): counted (max_share guard), not judged
+            return None
+        if c.tol_class and (isinstance(e, IndexError) or 'Multiple overlapping atoms found' in str(e)
+                            or 'do not seem to match indicated setting' in str(e)
+                            or (isinstance(e, AssertionError) and re.search(r'\d+ atoms found, \d+ expected', str(e)))):
+            raise Violation('Dislocation(...) of a crystal with a = %.6g working units (default tol) raised %s: %s'
+                            % (c.a, type(e).__name__, e), key=KEY_TOL)
+        raise
     c.d = d0
     check_frame(c, d0)
     rv = np.array(d0.rcell.box.vects, dtype=float)
     c.rvects = rv
     c.P = abs(float(rv[c.cut] @ c.n_ax))
     c.nshifts = len(d0.shifts)
+    if c.tol_class:
+        # every clause: with a wrong list of shifts nothing behind it is defined
+        try:
+            check_shifts(c, d0)
+        except Violation as v:
+            raise Violation('a = %.6g working units (default tol): %s' % (c.a, v.detail), key=KEY_TOL)
     sh = cr['shift']
     kind = sh['kind']
     c.callshift = {}
@@ -303,20 +358,20 @@ def apply_history(c, case, gen, labels):
         # no shift argument: "will use the shift set during class initialization" (monopole) / the attribute `shift`, "the
         # particular shift value that will be ... used".  The generator only draws this when both name the same vector.
         labels.add('history_keep')
-        require(np.abs(np.asarray(d.shift, dtype=float) - current).max() <= 1e-9 * (1 + np.abs(current).max()),
+        require(np.abs(np.asarray(d.shift, dtype=float) - current).max() <= 1e-9 * (c.s + np.abs(current).max()),
                 lambda: 'attribute shift = %r before a call without shift arguments, last set %r' % (d.shift, current))
         return
     c.shift = vec
     labels.add('call_shift_' + tag)
-    differs = np.abs(vec - current).max() > 1e-6
+    differs = np.abs(vec - current).max() > 1e-6 * c.s
     if f:
         if differs:
             labels.add('history_shift_changes')
-    elif c.cr['shift']['kind'] != 'default' and np.abs(vec - ctor).max() > 1e-6:
+    elif c.cr['shift']['kind'] != 'default' and np.abs(vec - ctor).max() > 1e-6 * c.s:
         labels.add('history_ctor_shift_differs')
     if kw.get('shiftindex') == 0:
         labels.add('explicit_shiftindex0')
-        if np.abs(current - shifts0).max() > 1e-6:
+        if np.abs(current - shifts0).max() > 1e-6 * c.s:
             labels.add('explicit_shiftindex0_stale')
     if tag == 'zero':
         labels.add('explicit_zero_shift')
@@ -325,7 +380,7 @@ def apply_history(c, case, gen, labels):
 def check_shift_attribute(c, d, when):
     """the attribute `shift` is documented as the particular shift value that was used to construct the dislocation system"""
     got = np.asarray(d.shift, dtype=float)
-    require(got.shape == (3,) and np.abs(got - c.shift).max() <= 1e-9 * (1 + np.abs(c.shift).max()),
+    require(got.shape == (3,) and np.abs(got - c.shift).max() <= 1e-9 * (c.s + np.abs(c.shift).max()),
             lambda: 'attribute shift = %r %s, the call asked for %r' % (d.shift, when, c.shift.tolist()))
 
 
@@ -387,8 +442,9 @@ def _rot_axis(R):
 
 
 def crystal_problems(c, pos, atype, shift, tol=1e-6):
-    """list of problems mapping positions (dislocation frame, after `shift`) back on the unit cell's crystal"""
-    motif = cm.Motif(c.V, None, c.rel @ c.V, tol)
+    """list of problems mapping positions (dislocation frame, after `shift`) back on the unit cell's crystal (tol x the length
+    scale of the case)"""
+    motif = cm.Motif(c.V, None, c.rel @ c.V, tol * c.s)      # tol in units of the length scale
     p_old = (np.asarray(pos, dtype=float) - shift) @ c.T          # row vectors: T^T applied
     m = motif.match(p_old)
     out = []
@@ -433,7 +489,7 @@ def resolve_sizes(c, size, cap=CAP, min_motion=0.0):
     if 'min' in size:
         idx = 'abc'.index(size['min'][0])
         L = float(np.linalg.norm(c.rvects[idx]))
-        val = float(size['min'][1])
+        val = float(size['min'][1]) * c.s
         mult = int(math.ceil(val / L))
         if idx != c.line and mult % 2 == 1:
             mult += 1
@@ -453,7 +509,9 @@ def resolve_center(c, cen, base_vects):
     if k == 'none':
         return np.zeros(3), {}
     if k == 'int':
-        vec = cen['m'] * c.m_ax + cen['l'] * c.xi_ax
+        # integer typed Cartesian centre: whole units x the length scale when that is a whole number (10^k, k >= 0), else the
+        # integer zero vector (whole working units are 10^-k lattice parameters away)
+        vec = (cen['m'] * c.m_ax + cen['l'] * c.xi_ax) * (10 ** c.lk if c.lk >= 0 else 0)
         return vec.astype(float), {'center': [int(round(x)) for x in vec]}
     W = abs(float(base_vects[c.motion] @ c.m_ax))
     ya, yb = gap_at_zero(c, np.array(c.d.rcell.atoms.pos), c.shift)
@@ -491,7 +549,7 @@ def check_reference(c, base, mults, what='base_system', full=True):
     require(not probs, lambda: '%s: %s' % (what, '; '.join(probs)))
     s = cm.rel_coords(pos, vects, origin)
     require(s.min() >= -1e-9 and s.max() < 1 + 1e-9, lambda: '%s: atoms outside the box after wrap: relative coordinates in [%.12g, %.12g]' % (what, s.min(), s.max()))
-    pairs = cm.coincidences(pos, vects, origin, 1e-4)
+    pairs = cm.coincidences(pos, vects, origin, 1e-4 * c.s)
     require(not pairs, lambda: '%s: atoms coincide modulo the box: %r' % (what, pairs[:3]))
     if full:
         nexp = int(round(abs(np.linalg.det(vects)) / abs(np.linalg.det(c.V)) * len(c.rel)))
@@ -536,17 +594,17 @@ def check_shifts(c, d):
     pos = np.array(d.rcell.atoms.pos, dtype=float)
     require(shifts.ndim == 2 and shifts.shape[1] == 3 and len(shifts) >= 1, lambda: 'shifts shape %r' % (shifts.shape,))
     perp = shifts - np.outer(shifts @ c.n_ax, c.n_ax)
-    require(np.abs(perp).max() <= 1e-9, lambda: 'shifts are not along n: %r' % shifts)
+    require(np.abs(perp).max() <= 1e-9 * c.s, lambda: 'shifts are not along n: %r' % shifts)
     y0 = planes_of(c, pos, np.zeros(3))
     require(len(shifts) == len(y0), lambda: '%d shifts for %d distinct atomic planes per period (planes at %r, shifts %r)'
             % (len(shifts), len(y0), y0.tolist(), (shifts @ c.n_ax).tolist()))
     sn = shifts @ c.n_ax * float(np.sign(c.rvects[c.cut] @ c.n_ax))
-    require(np.all(np.diff(sn) > -1e-7) and sn.min() >= -1e-7 and sn.max() <= c.P + 1e-7,
+    require(np.all(np.diff(sn) > -1e-7 * c.s) and sn.min() >= -1e-7 * c.s and sn.max() <= c.P + 1e-7 * c.s,
             lambda: 'shifts not sorted within one period: %r' % sn.tolist())
     gaps = set()
     for s in shifts:
         ya, yb = gap_at_zero(c, pos, s)
-        require(abs(ya + yb) <= 2e-7, lambda: 'shift %r does not put the slip plane midway between atomic planes: planes at %.9g and %.9g' % (s.tolist(), ya, yb))
+        require(abs(ya + yb) <= 2e-7 * c.s, lambda: 'shift %r does not put the slip plane midway between atomic planes: planes at %.9g and %.9g' % (s.tolist(), ya, yb))
         gaps.add(round(((-float(s @ c.n_ax)) % c.P) / c.P, 5) % 1.0)
     require(len(gaps) == len(shifts), lambda: 'two shifts select the same gap: %r' % (shifts @ c.n_ax).tolist())
 
@@ -555,6 +613,8 @@ def oracle_reference(case):
     c = setup(case['disl'])
     labels = labels_of(c)
     d = build(c)
+    if d is None:
+        return labels | {'solver_refused'}
     labels.add('frame_ok')
     # the solution object describes this dislocation
     sol = d.dislsol
@@ -576,19 +636,19 @@ def oracle_reference(case):
     require(rc.natoms == nexp, lambda: 'rcell has %d atoms, expected %d' % (rc.natoms, nexp))
     probs = crystal_problems(c, np.array(rc.atoms.pos), np.array(rc.atoms.atype), np.zeros(3))
     require(not probs, lambda: 'rcell: ' + '; '.join(probs))
-    pairs = cm.coincidences(np.array(rc.atoms.pos), rv, None, 1e-4)
+    pairs = cm.coincidences(np.array(rc.atoms.pos), rv, None, 1e-4 * c.s)
     require(not pairs, lambda: 'rcell: atoms coincide modulo the cell: %r' % pairs[:3])
     check_shifts(c, d)
     labels.add('nshifts_%d' % min(c.nshifts, 4))
     if c.callshift == {}:
-        require(np.abs(np.asarray(d.shift, dtype=float) - c.shift).max() <= 1e-9 * (1 + np.abs(c.shift).max()),
+        require(np.abs(np.asarray(d.shift, dtype=float) - c.shift).max() <= 1e-9 * (c.s + np.abs(c.shift).max()),
                 lambda: 'shift = %r, requested %r' % (d.shift, c.shift))
     # reference system through monopole()
     k, exp, kw = resolve_sizes(c, case['size'], cap=2000)
     kw.update(c.callshift)
     kw['return_base_system'] = True
     base, disl = call_generator(c, d.monopole, kw)
-    require(np.abs(np.asarray(d.shift, dtype=float) - c.shift).max() <= 1e-9 * (1 + np.abs(c.shift).max()),
+    require(np.abs(np.asarray(d.shift, dtype=float) - c.shift).max() <= 1e-9 * (c.s + np.abs(c.shift).max()),
             lambda: 'shift after the call = %r, requested %r' % (d.shift, c.shift))
     check_reference(c, base, exp)
     require(d.base_system is base and d.disl_system is disl, 'base_system / disl_system attributes are not the returned systems')
@@ -632,7 +692,7 @@ def boundary_setup(c, bd, vects, origin):
     a_len = float(np.linalg.norm(c.V[0]))
     fd = face_distances(c, vects, origin, np.zeros((1, 3)))
     half = min(min(float(dist[0]), h - float(dist[0])) for dist, h, _ in fd)
-    w = min(float(bd['width']), round(0.9 * half, 6))
+    w = min(float(bd['width']) * c.s, round(0.9 * half / c.s, 6) * c.s)
     kw = {'boundaryshape': bd['shape']}
     if w > 0:
         if bd['scale']:
@@ -645,15 +705,17 @@ def boundary_setup(c, bd, vects, origin):
 
 
 def outside_region(c, shape, w, vects, origin, pos, axis_point=None):
-    """(outside, near): my own predicate for 'atom is in the boundary region', and a mask of atoms within 1e-8 of its surface"""
+    """(outside, near): my own predicate for 'atom is in the boundary region', and a mask of atoms within 1e-8 (x the length
+    scale) of its surface"""
     pos = np.asarray(pos, dtype=float)
+    e8 = 1e-8 * c.s
     fd = face_distances(c, vects, origin, pos)
     if shape == 'box':
         out = np.zeros(len(pos), dtype=bool)
         near = np.zeros(len(pos), dtype=bool)
         for dist, h, _ in fd:
             out |= (dist < w) | (dist > h - w)
-            near |= (np.abs(dist - w) < 1e-8) | (np.abs(dist - (h - w)) < 1e-8)
+            near |= (np.abs(dist - w) < e8) | (np.abs(dist - (h - w)) < e8)
         return out, near
     p0 = np.zeros(3) if axis_point is None else np.asarray(axis_point, dtype=float)
     f0 = face_distances(c, vects, origin, p0[None, :])
@@ -661,7 +723,7 @@ def outside_region(c, shape, w, vects, origin, pos, axis_point=None):
     lhat = vects[c.line] / np.linalg.norm(vects[c.line])
     rel = pos - p0
     rad = np.linalg.norm(rel - np.outer(rel @ lhat, lhat), axis=1)
-    return rad > R, np.abs(rad - R) < 1e-8
+    return rad > R, np.abs(rad - R) < e8
 
 
 def run_monopole(c, case, cap=CAP):
@@ -682,6 +744,8 @@ def oracle_monopole(case):
     c = setup(case['disl'])
     labels = labels_of(c)
     d = build(c)
+    if d is None:
+        return labels | {'solver_refused'}
     apply_history(c, case, 'monopole', labels)
     r = run_monopole(c, case)
     base, disl, kw, exp, k = r['base'], r['disl'], r['kw'], r['exp'], r['k']
@@ -694,7 +758,7 @@ def oracle_monopole(case):
     u = solution_u(c, bp - center)
     lvec = vects[c.line]
     resid, kk = reduce_mod(dp - bp - u, [lvec])
-    tol = 1e-9 * (np.abs(bp).max() + np.abs(u).max() + 1)
+    tol = 1e-9 * (np.abs(bp).max() + np.abs(u).max() + c.s)
     err = np.abs(resid).max()
     require(err <= tol, lambda: 'disl.pos - base.pos differs from the solution at (base.pos - center) by %.3g (tol %.3g) at atom %d: base %r disl %r u %r center %r'
             % (err, tol, int(np.argmax(np.abs(resid).max(axis=1))), bp[np.argmax(np.abs(resid).max(axis=1))].tolist(),
@@ -807,7 +871,9 @@ def overlap_violation(c, q, qi, r_ov, cutoff, bp, vects, origin, bm):
 def run_array(c, case, labels, cap=CAP):
     """calls periodicarray for the case.  Returns None on a documented refusal (labels updated), else a dict."""
     d = c.d
-    cutoff = 0.5 if case.get('cutoff') is None else float(case['cutoff'])
+    # the default cutoff is documented as 0.5 Angstrom (converted to working units by the tool): in a scaled case the cutoff is
+    # always given, in the case's length unit
+    cutoff = (0.5 if case.get('cutoff') is None else float(case['cutoff'])) * c.s
     bm = float(c.b @ c.m_ax)
     # duplicates coincide only up to |b.m| |b| / 2L under the linear field (the two halves are strained by -+b/2L):
     # keep that at most 2/3 of the cutoff, else "Deleted atom mismatch ... adjust system dimensions" is the expected answer
@@ -822,7 +888,7 @@ def run_array(c, case, labels, cap=CAP):
     kw.update(bkw)
     if case.get('linear'):
         kw['linear'] = True
-    if case.get('cutoff') is not None:
+    if case.get('cutoff') is not None or c.lk:
         kw['cutoff'] = cutoff
     kw['return_base_system'] = True
     L = abs(float(vects[c.motion] @ c.m_ax))
@@ -836,12 +902,18 @@ def run_array(c, case, labels, cap=CAP):
         for lab, text in REFUSALS:
             if text in msg:
                 labels.add('refusal'); labels.add('refusal_' + lab)
+                if lab == 'onplane':
+                    # "atom positions found on slip plane": an atomic plane of the shifted crystal is on y = 0 (the generator
+                    # puts planes exactly there - the all-zero shift - or at least 0.7 of half a plane spacing away)
+                    yp = planes_of(c, np.array(d.rcell.atoms.pos, dtype=float), c.shift)
+                    dist = float(np.minimum(yp, c.P - yp).min())
+                    require(dist <= 1e-6 * c.s, lambda: 'refused with %r, but the atomic plane nearest to the slip plane is %.6g away '
+                            '(plane spacing period %.6g, shift %r)' % (msg, dist, c.P, np.asarray(c.shift).tolist()))
                 if lab == 'noninteger':
                     require(frac > 1e-9 * max(1.0, nrem), lambda: 'refused as non-integer deletion count, but N |b.m| / 2L = %.12g (N=%d, b.m=%.9g, L=%.9g)' % (nrem, nfull, bm, L))
                 if lab == 'mismatch':
                     # "adjust dimensions / cutoff" is the tool giving up on *finding* the duplicates; the number it set out
                     # to delete must still be the one implied by the edge component
-                    import re
                     mm = re.search(r'expected (-?\d+), found (-?\d+)', msg)
                     require(mm is not None, lambda: 'unparsable refusal: ' + msg)
                     require(int(mm.group(1)) == int(round(nrem)) and frac <= 1e-4 * max(1.0, nrem),
@@ -857,6 +929,8 @@ def oracle_array(case):
     c = setup(case['disl'])
     labels = labels_of(c)
     d = build(c)
+    if d is None:
+        return labels | {'solver_refused'}
     am = c.am
     apply_history(c, case, 'periodicarray', labels)
     r = run_array(c, case, labels)
@@ -905,7 +979,7 @@ def oracle_array(case):
     require(np.all(np.diff(oid) > 0) and oid.min() >= 0 and oid.max() < nfull, 'old_id is not strictly increasing within the reference range')
     bp = np.array(base.atoms.pos, dtype=float)
     rb, _ = reduce_mod(bp - fp[oid], vects)       # the same sites; an atom on a box face may be kept on either face
-    require(np.abs(rb).max() <= 1e-9 * (1 + np.abs(fp).max()), lambda: 'returned base system is not the reference system at old_id (max difference %.3g modulo the box)' % np.abs(rb).max())
+    require(np.abs(rb).max() <= 1e-9 * (c.s + np.abs(fp).max()), lambda: 'returned base system is not the reference system at old_id (max difference %.3g modulo the box)' % np.abs(rb).max())
     require(np.array_equal(np.array(base.atoms.atype), ft[oid]), 'returned base atom types differ from the reference at old_id')
     probs = crystal_problems(c, bp, np.array(base.atoms.atype), c.shift)
     require(not probs, lambda: 'returned base system: ' + '; '.join(probs))
@@ -917,7 +991,7 @@ def oracle_array(case):
     # "overlapping": closer than the duplicate cutoff, but never demanding more than the crystal allows - atoms of the two
     # planes adjoining the slip plane slide over each other and may come as close as the gap between those planes
     gya, gyb = gap_at_zero(c, np.array(d.rcell.atoms.pos), c.shift)
-    r_ov = min(cutoff, 0.9 * (gya - gyb), 0.5 * c.cr['a'] * g.DNN[c.cr['struct']])
+    r_ov = min(cutoff, 0.9 * (gya - gyb), 0.5 * c.a * g.DNN[c.cr['struct']])
     nclose = count_close(q, qi, r_ov)
     if nclose != len(q):
         overlap_violation(c, q, qi, r_ov, cutoff, bp, vects, origin, r['bm'])
@@ -931,7 +1005,7 @@ def oracle_array(case):
     delta = dp - bp
     x = bp - center
     ulin = my_linear(x, c.b, L, c.m_ax, c.n_ax)
-    tol = 1e-9 * (np.abs(bp).max() + c.bmag + 1)
+    tol = 1e-9 * (np.abs(bp).max() + c.bmag + c.s)
     y = bp @ c.n_ax
     ylo = float(origin @ c.n_ax); yhi = ylo + float(vects[c.cut] @ c.n_ax)
     if yhi < ylo:
@@ -947,7 +1021,7 @@ def oracle_array(case):
             overlap_violation(c, dp, di, r_ov, cutoff, bp, vects, origin, r['bm'])
     else:
         usol = solution_u(c, x)
-        umax = np.abs(usol @ c.n_ax).max() + 1e-9
+        umax = np.abs(usol @ c.n_ax).max() + 1e-9 * c.s
         band = (y <= ylo + w) | (y >= yhi - w)
         amb = (np.abs(y - (ylo + w)) <= umax) | (np.abs(y - (yhi - w)) <= umax)
         r_lin, _ = reduce_mod(delta - ulin, [v1, v2])
@@ -961,7 +1035,7 @@ def oracle_array(case):
             r_in = r_sol[inner] - kconst * c.n_ax
             err = np.abs(r_in).max()
             require(err <= tol, lambda: 'array: displacement of interior atoms differs from the solution (+ a rigid shift along n) by %.3g (tol %.3g)' % (err, tol))
-            require(abs(kconst) <= umax + 1e-9, lambda: 'rigid shift along n %.3g exceeds the solution amplitude %.3g' % (kconst, umax))
+            require(abs(kconst) <= umax + 1e-9 * c.s, lambda: 'rigid shift along n %.3g exceeds the solution amplitude %.3g' % (kconst, umax))
             labels.add('interior')
         outer = band & ~amb
         if outer.any():
@@ -979,7 +1053,7 @@ def oracle_array(case):
     if w > 0:
         def outside(p):
             yy = p @ c.n_ax
-            return (yy < ylo + w) | (yy > yhi - w), (np.abs(yy - (ylo + w)) < 1e-8) | (np.abs(yy - (yhi - w)) < 1e-8)
+            return (yy < ylo + w) | (yy > yhi - w), (np.abs(yy - (ylo + w)) < 1e-8 * c.s) | (np.abs(yy - (yhi - w)) < 1e-8 * c.s)
         o_d, n_d = outside(dp)
         o_b, n_b = outside(bp)
         free = n_d | n_b | (o_d != o_b)
@@ -1020,7 +1094,8 @@ def tail_prefactors(c):
     pn, px = [], []
     eps = 1e-4
     for sgn in (-1.0, 1.0):
-        pts = np.array([sgn * c.m_ax + eps * c.n_ax, sgn * c.m_ax + 2 * eps * c.n_ax, sgn * (1 + eps) * c.m_ax + eps * c.n_ax])
+        # at distance one length unit from the line: P = 2 pi |x| |du/dn| / |b| with |x| = c.s, du/dn = |du| / (eps c.s)
+        pts = np.array([sgn * c.m_ax + eps * c.n_ax, sgn * c.m_ax + 2 * eps * c.n_ax, sgn * (1 + eps) * c.m_ax + eps * c.n_ax]) * c.s
         u = solution_u(c, pts)
         pn.append(2 * math.pi * float(np.linalg.norm(u[1] - u[0])) / eps / c.bmag)
         px.append(2 * math.pi * float(np.linalg.norm(u[2] - u[0])) / eps / c.bmag)
@@ -1033,7 +1108,7 @@ def tail_bound(c, xlo, xhi, ya, yb, smax):
     Bound: 1.25 x the sum of the two magnitudes, the relative second order term with a factor 10, plus the error of
     interpolating each row linearly between its columns (spacing <= smax): smax^2 / 8 x |d2u/dm2| per row."""
     h = (ya - yb) / 2
-    if xlo >= -1e-9 or xhi <= 1e-9:
+    if xlo >= -1e-9 * c.s or xhi <= 1e-9 * c.s:
         return None
     pnm, pnp, pxm, pxp = tail_prefactors(c)
     X = min(abs(xlo), abs(xhi))
@@ -1076,10 +1151,14 @@ def disreg_once(c, case, labels, motion_mult=None):
     y = bp @ c.n_ax
     cy = float(center @ c.n_ax)
     ya, yb = y[y > cy].min() - cy, y[y < cy].max() - cy
-    xa = bp[np.abs(y - cy - ya) < 1e-6] @ c.m_ax
-    xb = bp[np.abs(y - cy - yb) < 1e-6] @ c.m_ax
-    allx = np.union1d(np.round(xa, 6), np.round(xb, 6))
-    require(abs(xs[0] - allx[0]) <= 1e-5 and abs(xs[-1] - allx[-1]) <= 1e-5 and len(xs) <= len(np.union1d(xa, xb)),
+    e6 = 1e-6 * c.s
+
+    def r6(v):
+        return np.round(np.asarray(v) / c.s, 6) * c.s           # rounded to 1e-6 length units
+    xa = bp[np.abs(y - cy - ya) < e6] @ c.m_ax
+    xb = bp[np.abs(y - cy - yb) < e6] @ c.m_ax
+    allx = np.union1d(r6(xa), r6(xb))
+    require(abs(xs[0] - allx[0]) <= 10 * e6 and abs(xs[-1] - allx[-1]) <= 10 * e6 and len(xs) <= len(np.union1d(xa, xb)),
             lambda: 'disregistry coordinates [%r .. %r] do not span the columns adjoining the slip plane [%r .. %r]' % (xs[0], xs[-1], allx[0], allx[-1]))
     # spacing of the columns in either plane bounds the flat extrapolation of the shorter row
     dx = max(abs(xa.min() - xb.min()), abs(xa.max() - xb.max()))
@@ -1093,10 +1172,10 @@ def disreg_once(c, case, labels, motion_mult=None):
         rows = []
         safe = True
         for yy in (ya, yb):
-            sel = np.abs(y - cy - yy) < 1e-6
+            sel = np.abs(y - cy - yy) < e6
             safe = safe and frac_[sel].max() < 0.45
             xr = bp[sel] @ c.m_ax
-            xx = np.round(xr, 6)
+            xx = r6(xr)
             keys = np.unique(xx)
             mean = np.array([disp[sel][xx == v].mean(axis=0) for v in keys])
             rows.append((np.array([xr[xx == v].mean() for v in keys]), mean))
@@ -1104,16 +1183,16 @@ def disreg_once(c, case, labels, motion_mult=None):
             mine = (np.array([np.interp(xs, rows[0][0], rows[0][1][:, j]) for j in range(3)]).T
                     - np.array([np.interp(xs, rows[1][0], rows[1][1][:, j]) for j in range(3)]).T)
             err = np.abs(mine - dis).max()
-            require(err <= 1e-7 * (1 + c.bmag), lambda: 'disregistry differs from (mean displacement of the row above) - (row below), interpolated on the '
+            require(err <= 1e-7 * (c.s + c.bmag), lambda: 'disregistry differs from (mean displacement of the row above) - (row below), interpolated on the '
                     'union of the column coordinates, by %.3g at x=%r' % (err, xs[int(np.argmax(np.abs(mine - dis).max(axis=1)))]))
             labels.add('bookkeeping')
     # the outermost coordinates at which both rows have a column (beyond them the tool extrapolates one row flat)
-    lo, hi = max(xa.min(), xb.min()) - 1e-5, min(xa.max(), xb.max()) + 1e-5
+    lo, hi = max(xa.min(), xb.min()) - 10 * e6, min(xa.max(), xb.max()) + 10 * e6
     inner = np.where((xs >= lo) & (xs <= hi))[0]
     require(len(inner) >= 2, 'harness: rows adjoining the slip plane do not overlap')
     ilo, ihi = int(inner[0]), int(inner[-1])
     total = dis[ilo] - dis[ihi]
-    smax = max(float(np.diff(np.unique(np.round(xa, 6))).max(initial=0.0)), float(np.diff(np.unique(np.round(xb, 6))).max(initial=0.0)))
+    smax = max(float(np.diff(np.unique(r6(xa))).max(initial=0.0)), float(np.diff(np.unique(r6(xb))).max(initial=0.0)))
     return dict(xs=xs, dis=dis, total=total, xlo=float(xs[ilo]), xhi=float(xs[ihi]), smax=smax, safe=safe, ya=ya, yb=yb, dx=dx, center=center, periods=periods, L=L, base=base, exp=exp,
                 vects=vects)
 
@@ -1121,8 +1200,26 @@ def disreg_once(c, case, labels, motion_mult=None):
 def oracle_disregistry(case):
     c = setup(case['disl'])
     labels = labels_of(c)
-    build(c)
+    if build(c) is None:
+        return labels | {'solver_refused'}
     labels.add(case['kind'])
+    if c.lk <= -8:
+        # atomman.defect.disregistry groups planes and columns with numpy.isclose at its default ABSOLUTE tolerance 1e-8: the
+        # open finding C17:disregistry:absolute-isclose-tolerance:plane-spacing-below-1e-8-units (C17's subject, repair
+        # mutants/C17/FIX_disregistry_absolute_isclose.diff).  Whatever goes wrong for a crystal whose plane / column spacing is
+        # not large against 1e-8 working units is that finding; with the repair the full oracle applies
+        try:
+            return _oracle_disregistry(c, case, labels)
+        except Violation as v:
+            raise Violation('a = %.6g working units: %s' % (c.a, v.detail), key=v.key or KEY_DISREG)
+        except ValueError as e:
+            if 'planepos must fall between atomic planes' in str(e):
+                raise Violation('a = %.6g working units: disregistry(planepos between two planes) raised ValueError: %s' % (c.a, e), key=KEY_DISREG)
+            raise
+    return _oracle_disregistry(c, case, labels)
+
+
+def _oracle_disregistry(c, case, labels):
     r = disreg_once(c, case, labels)
     if r is None:
         return labels
@@ -1143,18 +1240,18 @@ def oracle_disregistry(case):
 
     def in_band(r):
         # are the planes adjoining the slip plane inside the linear boundary band?
-        w = min(float(case['boundary']['width']), 1e9)
+        w = float(case['boundary']['width']) * c.s
         vects, origin = expected_box(c, r['exp'])
         fd = face_distances(c, vects, origin, np.zeros((1, 3)))
         half = min(min(float(dist[0]), h - float(dist[0])) for dist, h, _ in fd)
-        w = min(w, round(0.9 * half, 6))
+        w = min(w, round(0.9 * half / c.s, 6) * c.s)
         ylo = float(origin @ c.n_ax); yhi = ylo + float(vects[c.cut] @ c.n_ax)
         if yhi < ylo:
             ylo, yhi = yhi, ylo
         cy = float(r['center'] @ c.n_ax)
         # 'both' rows get the linear field, 'none', or 'mixed' (one row each / on the edge of the band: no statement)
         lo_in, hi_in = cy + r['yb'] <= ylo + w, cy + r['ya'] >= yhi - w
-        edge = min(abs(cy + r['yb'] - (ylo + w)), abs(cy + r['ya'] - (yhi - w))) < 1e-6
+        edge = min(abs(cy + r['yb'] - (ylo + w)), abs(cy + r['ya'] - (yhi - w))) < 1e-6 * c.s
         return 'mixed' if (edge or lo_in != hi_in) else 'both' if lo_in else 'none'
 
     if case['kind'] == 'array' and in_band(r) == 'mixed':
@@ -1163,7 +1260,7 @@ def oracle_disregistry(case):
     err = error_of(r)
     if case['kind'] == 'array_linear' or (case['kind'] == 'array' and in_band(r) == 'both'):
         # exact: both rows follow the linear field, and linear interpolation of a linear function is exact
-        tol = 1e-8 * (1 + c.bmag)
+        tol = 1e-8 * (c.s + c.bmag)
         require(err <= tol, lambda: 'linear field: disregistry(x_lo) - disregistry(x_hi) = %r, expected b (x_hi - x_lo)/L = %r (error %.3g, tol %.3g)'
                 % (r['total'].tolist(), (c.b * (r['xhi'] - r['xlo']) / r['L']).tolist(), err, tol))
         labels.add('exact_linear')
@@ -1174,7 +1271,7 @@ def oracle_disregistry(case):
         return labels
     bound, h, xmin, xmax = tb
     labels.add('tail')
-    require(err <= bound + 1e-8, lambda: 'disregistry(x_lo) - disregistry(x_hi) = %r, b = %r: error %.4g exceeds the tail bound %.4g (h=%.4g, x_lo=%.4g, x_hi=%.4g)'
+    require(err <= bound + 1e-8 * c.s, lambda: 'disregistry(x_lo) - disregistry(x_hi) = %r, b = %r: error %.4g exceeds the tail bound %.4g (h=%.4g, x_lo=%.4g, x_hi=%.4g)'
             % (r['total'].tolist(), c.b.tolist(), err, bound, h, xmin, xmax))
     labels.add('ratio_%d' % min(9, int(10 * err / bound)))
     if case.get('triple') and case['kind'] == 'monopole':
@@ -1184,8 +1281,8 @@ def oracle_disregistry(case):
             if r3 is not None and r3['exp'][c.motion] == 3 * m0 and r3['safe']:
                 err3 = error_of(r3)
                 tb3 = tail_bound(c, r3['xlo'] - cm_x, r3['xhi'] - cm_x, r3['ya'], r3['yb'], r3['smax'])
-                require(tb3 is not None and err3 <= tb3[0] + 1e-8, lambda: 'tripled width: error %.4g exceeds the bound %r' % (err3, tb3))
-                require(err3 <= max(0.75 * err, 1e-7), lambda: 'tripling the in-plane width did not reduce the disregistry error: %.4g -> %.4g' % (err, err3))
+                require(tb3 is not None and err3 <= tb3[0] + 1e-8 * c.s, lambda: 'tripled width: error %.4g exceeds the bound %r' % (err3, tb3))
+                require(err3 <= max(0.75 * err, 1e-7 * c.s), lambda: 'tripling the in-plane width did not reduce the disregistry error: %.4g -> %.4g' % (err, err3))
                 labels.add('tripled')
     return labels
 
@@ -1202,6 +1299,8 @@ def oracle_sizemults(case):
     c = setup(case['disl'])
     labels = labels_of(c)
     d = build(c)
+    if d is None:
+        return labels | {'solver_refused'}
     size = dict(case['size']); size['tuple'] = False; size.pop('min', None)
     k, exp, kw = resolve_sizes(c, size, cap=1000)
     fn = getattr(d, case['gen'])
@@ -1244,24 +1343,33 @@ def oracle_sizemults(case):
     return labels
 
 
+# length-scale guards at half the share observed on the unchanged tree, where the open finding KEY_TOL excludes every case with a
+# cell <= 1e-2 working units and a third of those at 1e6 (shares over the remaining cases there: scaled 0.18-0.20, scaled_large
+# 0.10-0.16, scaled_small 0.04-0.08, nt_scaled 0.06-0.14; behind the repair: 0.33-0.47, 0.08-0.13, 0.20-0.34, 0.15-0.27, and
+# scale_1e-10 0.09-0.12)
+SCALE_SHARE = {'scaled': 0.09, 'scaled_large': 0.05, 'scaled_small': 0.02, 'nt_scaled': 0.03, 'C_magnitude_scaled': 0.19}
+SOLVER_SHARE = {'solver_refused': 0.02}
+
 CLAUSES = [
     Clause('reference', oracle_reference, reference_cases, quick=1200, thorough=24000,
-           min_share={'nt': 0.04, 'frame_ok': 0.2, 'hcp': 0.01, 'mn_cyclic': 0.08},
+           min_share=dict({'nt': 0.04, 'frame_ok': 0.2, 'hcp': 0.01, 'mn_cyclic': 0.08}, **SCALE_SHARE), max_share=SOLVER_SHARE,
            desc='rcell/uvws/transform/shifts and the reference system: the unit cell crystal rotated by transform, shifted, filling the box once'),
     Clause('monopole', oracle_monopole, monopole_cases, quick=1800, thorough=36000,
            min_share={'nt': 0.06, 'bd_mixed': 0.12, 'bd_cylinder': 0.06, 'bd_box': 0.06, 'center_scaled': 0.03, 'center_abs': 0.05,
                       'wrapped_along_line': 0.15, 'history_second_call': 0.24, 'history_ctor_shift_differs': 0.08,
                       'history_shift_changes': 0.15, 'history_other_generator': 0.08, 'explicit_shiftindex0': 0.15,
-                      'explicit_shiftindex0_stale': 0.08},
+                      'explicit_shiftindex0_stale': 0.08, **SCALE_SHARE}, max_share=SOLVER_SHARE,
            desc='monopole: all reference atoms kept, displaced by the solution at (reference position - centre), periodic along the line only, boundary atoms re-typed exactly outside the box / cylinder region'),
     Clause('array', oracle_array, array_cases, quick=1800, thorough=36000,
            min_share={'nt': 0.06, 'removed': 0.15, 'interior': 0.12, 'band': 0.07, 'linear': 0.06, 'history_second_call': 0.25,
                       'history_ctor_shift_differs': 0.07, 'history_shift_changes': 0.15, 'history_other_generator': 0.1,
-                      'explicit_shiftindex0': 0.16, 'explicit_shiftindex0_stale': 0.08}, max_share={'refusal': 0.25},
+                      'explicit_shiftindex0': 0.16, 'explicit_shiftindex0_stale': 0.08, **SCALE_SHARE},
+           max_share=dict({'refusal': 0.25}, **SOLVER_SHARE),
            desc='periodic array: deletion count from the edge component, deleted atoms are duplicates, no overlap in-plane, old_id maps back, linear / solution displacement re-derived, pbc and box'),
     Clause('disregistry', oracle_disregistry, disreg_cases, quick=1000, thorough=20000,
-           min_share={'nt': 0.05, 'tail': 0.12, 'exact_linear': 0.03, 'bookkeeping': 0.15, 'tripled': 0.01}, max_share={'refusal': 0.25},
+           min_share=dict({'nt': 0.05, 'tail': 0.12, 'exact_linear': 0.03, 'bookkeeping': 0.15, 'tripled': 0.01}, **SCALE_SHARE),
+           max_share=dict({'refusal': 0.25}, **SOLVER_SHARE),
            desc='disregistry across the slip plane accumulates to b up to the analytic tail bound (exactly b (x_hi-x_lo)/L for the linear field); error shrinks when the width is tripled'),
-    Clause('sizemults', oracle_sizemults, sizemults_cases, quick=400, thorough=4000, min_share={'monopole': 0.1},
+    Clause('sizemults', oracle_sizemults, sizemults_cases, quick=400, thorough=4000, min_share=dict({'monopole': 0.1}, **SCALE_SHARE), max_share=SOLVER_SHARE,
            desc='sizemults as the documented tuple equals the list result; a list argument is left untouched and the call is repeatable'),
 ]
